@@ -12,6 +12,10 @@ import (
 type Env struct {
 	T    *testing.T // for testing/synctest bubbles
 	Tier string     // quick | thorough
+	// Progress, if set, is told which scenario is about to be executed (also during
+	// shrinking), so that a process that dies mid-run (race detector, crash in a library
+	// goroutine) can be attributed to the exact scenario.
+	Progress func(sc Scenario)
 }
 
 // Violation is one failed oracle clause. Clause names the sentence of the property,
@@ -151,6 +155,9 @@ func HasClause(vs []Violation, clause, key string) *Violation {
 // SafeRun runs the scenario and converts a panic of the harness/scenario itself into a
 // violation-like record with clause "harness-panic" (the driver maps that to exit 2).
 func SafeRun(env *Env, sc Scenario, st *Stats) (vs []Violation) {
+	if env != nil && env.Progress != nil {
+		env.Progress(sc)
+	}
 	defer func() {
 		if r := recover(); r != nil {
 			vs = append(vs, V("harness-panic", "panic", "%v", r))
